@@ -90,6 +90,7 @@ def notInputEnt (nodes : Array CNode) (bind : Nat → Option Bind) (p : Nat) : B
     match nodes[n]?, bind n with
     | some (.input ..), some (.ent e _) => e != p
     | some (.entOut _), some (.many es) => !es.contains p
+    | some (.memRead ..), some (.sum es _) => !es.contains p
     | _, _ => true)
 
 /-- does operand `o` of entity `i` denote argument `a`? -/
@@ -344,6 +345,7 @@ def scalarEnts (bind : Nat → Option Bind) (s : Sig) (a : Arg) : Option (List N
 /-- scalar node `nd` exists only as a wire-sum: a bundle selection, or an addition folded into the wires -/
 def checkSum (bind : Nat → Option Bind) (n : Nat) (nd : CNode) (es : List Nat) (s : Sig) : Bool :=
   match nd with
+  | .memRead _ ty => ty == s      -- the cell's current content is, by definition, what its gates emit (InputsAgree)
   | .select b ty => decide (b < n) && ty == s && (match bind b with | some (.many eb) => es == eb | _ => false)
   | .arith .add a b _ =>
     argBelow n a && argBelow n b &&
